@@ -15,6 +15,7 @@ list model, every `n` (joint differentiability and the passage from partial deri
 -/
 import Xrfmv.Lemmas.Grad
 import Xrfmv.Lemmas.GradFull
+import Xrfmv.Lemmas.GradGen
 
 namespace Xrfmv.Props.C04
 open Xrfmv.Grad
@@ -459,5 +460,24 @@ example : GeneralPosition (n := 2) .prod { L := 3, q := 0.7, p := 1.5, eps := 1e
     ![0, 0] ![3, 4] := by
   intro e
   fin_cases e <;> simp [applyT] <;> norm_num
+
+/-! ### the code's own gradient-weight programs (regenerated `Gen.GradOps`) -/
+
+/-- **C04 over the regenerated source, L2 and memory-light kernels.**  The statements of
+`LaplaceKernel._get_function_grad_impl` / `LightLaplaceKernel.get_function_grads` as they are written *now* (translated into
+`Gen.GradOps` on every run: `kernel_mat = dists ** q`, the in-place `mul_ / exp_ / clamp_ / pow_`, the mask `dists >= eps`, the
+products of the tensors, the final `einsum` difference) compute, for every kernel parameter, transform, set of centers, query
+points and coefficient matrix, exactly the closed-form gradient tensor of `Model/Grad.lean` — the tensor that
+`C04_full_holds` shows to be the Fréchet derivative of the predictor. -/
+theorem gen_fgrad_eq_model (light : Bool) (P : Params ℝ) (T : Transform ℝ) (xs zs : List (List ℝ))
+    (coefs : List (List ℝ)) :
+    GradGen.fgrad light P T xs zs coefs = fgrad (if light then .light else .l2) P T xs zs coefs :=
+  GradGen.fgrad_eq light P T xs zs coefs
+
+/-- The weight the regenerated program of the L2 kernel gives a pair at (prepared) distance `d ≥ 0`: the stated factor
+`−(q/L^q)·k·d^{q−2}`, and exactly `0` for a pair closer than `eps` (the coinciding center contributes nothing). -/
+theorem gen_l2_weight_eq (P : Params ℝ) {d : ℝ} (hd : 0 ≤ d) :
+    TensorProg.weight (Gen.GradOps.laplaceGrad (GradGen.toOps P)) d = if d < P.eps then 0 else l2Factor P d :=
+  GradGen.weight_laplace P hd
 
 end Xrfmv.Props.C04
